@@ -116,6 +116,12 @@ class C04(InterpProp):
         for t in sc.transitions:
             if t.event is not None:
                 t.event = rnd.choice(['e', 'e', 'f'])
+        if rnd.random() < 0.12:
+            # guards written with braces (set displays): they show in the text of the transition, hence in the
+            # messages of the exceptions (outside the modelled subset: implementation only)
+            for t in sc.transitions:
+                if rnd.random() < 0.5:
+                    t.guard = rnd.choice(['x in {0, 1, 2, 3, 4, 5, 6, 7, 8, 9}', 'y not in {-7}', 'x >= 0 or x in {}'])
         # sometimes two transitions on the root state (D3)
         if rnd.random() < 0.25:
             from sismic.model import Transition
